@@ -113,6 +113,19 @@ CLAIMED = {
    ref="DESIGN.md section 4 C18",
    note=("partial: uniformity of random.randrange is not modelled (binomial test only); CPython's event stream observed as in C02"),
    technique="Lean 4 proof (simulation + per-frame case analysis over event histories and draw streams) + differential correspondence by event-stream replay"),
+ "C17": dict(
+   text=("Lean 4 theorems: the default filter admits a code object iff it has a real file name and its resolved path lies under no library "
+         "root (default_iff); with an allow-list iff a listed name equals the file stem or a path component left after stripping the library "
+         "root (allow_iff); synthetic file names are never admitted; for every event history and any filter, every trace the tracer logs "
+         "belongs to a function resolved from admitted code (logged_only_admitted) and every complete life of an admitted resolvable frame "
+         "is logged (accepted_always_logged); the store logger drops __main__. Tied to /repo by evaluating the real default_code_filter on "
+         "code objects compiled from standard-library / site-packages / generated modules (incl. symlinked files and directories, synthetic "
+         "names, equal code objects under two file names in both orders) against the model and an independent realpath oracle; custom filters "
+         "over random subsets of generated programs; `monkeytype run` of generated scripts."),
+   ref="DESIGN.md section 4 C17",
+   note=("partial: Path.resolve / sysconfig / os.environ are the runtime's (inputs of the model); the allow-list oracle follows the property's "
+         "reading (import-path components) — the code matches any component of the absolute path for files outside the library roots (watch item)"),
+   technique="Lean 4 proof (decision logic + invariant over event histories) + differential correspondence on enumerated code objects"),
 }
 
 NOT_YET = "check not built yet (build in progress; see DESIGN.md section 10)"
